@@ -105,6 +105,17 @@ class Sched:
             self._switch_to(nxt)
             self.cur = me
 
+    def preempt(self, label: str):
+        """pre-empt the current task right here in favour of another runnable one (line-level mode)"""
+        me = self.cur
+        others = [t for t in self.tasks if t is not me and self._runnable(t)]
+        if not others:
+            return
+        nxt = others[self.ch.pick("sched.preempt", len(others))]
+        self.note("PREEMPT", me.name, nxt.name, label)
+        self._switch_to(nxt)
+        self.cur = me
+
     def block(self, label: str, cond, deadline):
         """current task blocks until cond() or the deadline; others run meanwhile"""
         me = self.cur
